@@ -325,7 +325,8 @@ theorem finish {s' : Srv} {mn : Mon} {i : In} {outs : List Out}
     (hcons : s'.avail.length + s'.alloc.length = mn.total)
     (hrad : mn.radius = s'.radius)
     (hsent : ∀ t ∈ (obsOf s' outs).sent, t.ipcpAns = true → t.sid ∈ auth1 mn i (obsOf s' outs))
-    (hv3 : v3 mn i (obsOf s' outs) = []) :
+    (hv3 : v3 mn i (obsOf s' outs) = [])
+    (hv6 : v6 i (obsOf s' outs) = []) :
     Rel s' (monitorCore mn i (obsOf s' outs)).1 ∧ Quiet (monitorCore mn i (obsOf s' outs)).2 := by
   have hlive := live_contains hW'
   constructor
@@ -377,8 +378,8 @@ theorem finish {s' : Srv} {mn : Mon} {i : In} {outs : List Out}
     intro v hv
     show v.2.1 = _
     have hv' : v ∈ v1 (auth1 mn i (obsOf s' outs)) (obsOf s' outs) ++ v2 (auth1 mn i (obsOf s' outs)) (obsOf s' outs)
-        ++ v3 mn i (obsOf s' outs) ++ v4 mn i (obsOf s' outs) ++ v5 (obsOf s' outs) := hv
-    rw [h1, h2, hv3, v5_nil hW', List.append_nil] at hv'
+        ++ v3 mn i (obsOf s' outs) ++ v4 mn i (obsOf s' outs) ++ v5 (obsOf s' outs) ++ v6 i (obsOf s' outs) := hv
+    rw [h1, h2, hv3, v5_nil hW', hv6, List.append_nil, List.append_nil] at hv'
     simp only [List.nil_append, v4, hh] at hv'
     have e1 : (obsOf s' outs).alloc = s'.alloc.length := rfl
     have e2 : (obsOf s' outs).free = s'.avail.length := rfl
@@ -650,12 +651,45 @@ theorem v3_nil {s s' : Srv} {mn : Mon} {i : In} {outs : List Out} (hR : Rel s mn
       · rfl
     · rfl
 
+/-- an IPCP Configure-Ack is one of the answers the `unauth` clause looks at -/
+theorem ack_is_ans : ∀ (o : Out) (t : Sent), toSent o = some t → t.ack = true → t.ipcpAns = true := by
+  intro o t h ha
+  cases o with
+  | ipcpnak ip sid m =>
+    cases ip <;> simp [toSent, plainSent] at h <;> subst h <;> simp_all
+  | _ => simp [toSent, plainSent] at h <;> (try subst h) <;> simp_all
+
+theorem v6_nil_of_noack {s' : Srv} (i : In) (outs : List Out)
+    (h : ∀ t ∈ outs.filterMap toSent, t.ack = false) : v6 i (obsOf s' outs) = [] := by
+  unfold v6
+  split
+  · rename_i sid
+    have : ((obsOf s' outs).sent.any fun t => t.sid == sid && t.ack) = false := by
+      rw [List.any_eq_false]
+      intro t ht
+      have := h t ht
+      simp [this]
+    simp [this]
+  · rfl
+
+theorem v6_nil_of_noans {s' : Srv} (i : In) (outs : List Out)
+    (h : ∀ t ∈ outs.filterMap toSent, t.pads = false ∧ t.ipcpAns = false) : v6 i (obsOf s' outs) = [] := by
+  apply v6_nil_of_noack
+  intro t ht
+  cases hb : t.ack with
+  | false => rfl
+  | true =>
+    obtain ⟨o, _, ho⟩ := List.mem_filterMap.mp ht
+    have := ack_is_ans o t ho hb
+    rw [(h t ht).2] at this; cases this
+
 /-- an operation that leaves the server state alone -/
 theorem same_state {s : Srv} {mn : Mon} {i : In} {outs : List Out} (hW : W s) (hR : Rel s mn)
     (hstep : step s i = (s, outs)) (hns : ∀ o, sweptNow mn o i = 0)
     (hnp : ∀ t ∈ outs.filterMap toSent, t.pads = false)
     (hans : ∀ t ∈ outs.filterMap toSent, t.ipcpAns = true →
-      ∃ x, lookup s.sessions t.sid = some x ∧ x.authed = true) :
+      ∃ x, lookup s.sessions t.sid = some x ∧ x.authed = true)
+    (hv6 : v6 i (obsOf s outs) = []) :
     Rel s (monitorCore mn i (obsOf s outs)).1 ∧ Quiet (monitorCore mn i (obsOf s outs)).2 := by
   have hnp' : ∀ t ∈ (obsOf s outs).sent, t.pads = false := hnp
   apply finish hW
@@ -674,6 +708,7 @@ theorem same_state {s : Srv} {mn : Mon} {i : In} {outs : List Out} (hW : W s) (h
     rw [auth0_nopads mn _ hnp']
     exact hR.auth t.sid x hl ((hW.ok t.sid x hl).1 hau)
   · exact v3_nil hR hstep
+  · exact hv6
 
 
 /-- the statement proved for every operation -/
@@ -747,6 +782,7 @@ theorem remove_core {s s1 : Srv} {mn : Mon} {i : In} {sid : Nat} {x : Sess} {out
     have := (hnp t ht).2
     rw [this] at ha; simp at ha
   · exact v3_nil hR hstep
+  · exact v6_nil_of_noans i outs hnp
 
 /-- a session is updated in place, possibly after an address was taken from the pool -/
 theorem update_core {s s1 : Srv} {mn : Mon} {i : In} {sid : Nat} {x y : Sess} {outs : List Out}
@@ -809,6 +845,7 @@ theorem update_core {s s1 : Srv} {mn : Mon} {i : In} {sid : Nat} {x y : Sess} {o
     have := (hnp t ht).2
     rw [this] at ha; simp at ha
   · exact v3_nil hR hstep
+  · exact v6_nil_of_noans i outs hnp
 
 
 theorem newId_got {s : Srv} (hW : W s) {id nx : Nat} (h : newId s = .got id nx) :
@@ -843,14 +880,15 @@ theorem step_ok {s : Srv} {mn : Mon} (hW : W s) (hR : Rel s mn) (i : In) : StepO
   have same : ∀ outs, step s i = (s, outs) → (∀ o, sweptNow mn o i = 0) →
       (∀ t ∈ outs.filterMap toSent, t.pads = false) →
       (∀ t ∈ outs.filterMap toSent, t.ipcpAns = true → ∃ x, lookup s.sessions t.sid = some x ∧ x.authed = true) →
+      v6 i (obsOf s outs) = [] →
       StepOK s mn i := by
-    intro outs hstep hns hnp hans
-    exact conclude hstep hW (same_state hW hR hstep hns hnp hans)
+    intro outs hstep hns hnp hans hv6
+    exact conclude hstep hW (same_state hW hR hstep hns hnp hans hv6)
   cases i with
   | padi m =>
-    exact same [.pado m] rfl (fun _ => rfl) (by simp [toSent]) (by simp [toSent])
+    exact same [.pado m] rfl (fun _ => rfl) (by simp [toSent]) (by simp [toSent]) (v6_nil_of_noack _ _ (by simp [toSent, plainSent]))
   | ip m sid =>
-    exact same [] rfl (fun _ => rfl) (by simp) (by simp)
+    exact same [] rfl (fun _ => rfl) (by simp) (by simp) (v6_nil_of_noack _ _ (by simp))
   | padr m cookie =>
     by_cases hck : cookie = true
     · cases hid : newId s with
@@ -933,10 +971,11 @@ theorem step_ok {s : Srv} {mn : Mon} (hW : W s) (hR : Rel s mn) (i : In) : StepO
           simp [obsOf, toSent, plainSent] at ht
           rcases ht with rfl | rfl <;> simp at ha'
         · exact v3_nil hR hstep
-      | full => exact same [] (by simp only [step, hck, hid]; rfl) (fun _ => rfl) (by simp) (by simp)
-      | spin => exact same [] (by simp only [step, hck, hid]; rfl) (fun _ => rfl) (by simp) (by simp)
+        · rfl
+      | full => exact same [] (by simp only [step, hck, hid]; rfl) (fun _ => rfl) (by simp) (by simp) (v6_nil_of_noack _ _ (by simp))
+      | spin => exact same [] (by simp only [step, hck, hid]; rfl) (fun _ => rfl) (by simp) (by simp) (v6_nil_of_noack _ _ (by simp))
     · have hck' : cookie = false := by simpa using hck
-      exact same [] (by simp [step, hck']) (fun _ => rfl) (by simp) (by simp)
+      exact same [] (by simp [step, hck']) (fun _ => rfl) (by simp) (by simp) (v6_nil_of_noack _ _ (by simp))
   | sweep keep =>
     have hstep : step s (.sweep keep)
         = ({ s with sessions := s.sessions.filter (fun p => keep.contains p.1) }, []) := rfl
@@ -977,22 +1016,23 @@ theorem step_ok {s : Srv} {mn : Mon} (hW : W s) (hR : Rel s mn) (i : In) : StepO
     · exact hR.rad
     · intro t ht; simp [obsOf] at ht
     · exact v3_nil hR hstep
+    · rfl
   | padt m sid =>
     cases hg : ownerGate s m sid with
-    | none => exact same [] (by simp only [step, hg]) (fun _ => rfl) (by simp) (by simp)
+    | none => exact same [] (by simp only [step, hg]) (fun _ => rfl) (by simp) (by simp) (v6_nil_of_noack _ _ (by simp))
     | some x =>
       obtain ⟨hx, _⟩ := Spec.C04.ownerGate_some hg
       obtain ⟨f1, f2, f3, f4, f5, f6, f7, f8, f9⟩ := release_facts s hW.nda x.serial
       exact remove_core hW hR hx (outs := []) (by simp only [step, hg]) f1 f2 f3 f4 f5 f6 f7 f8 f9 (fun _ => rfl) (by simp)
   | lcp m sid k =>
     cases hg : ownerGate s m sid with
-    | none => exact same [] (by simp only [step, hg]) (fun _ => rfl) (by simp) (by simp)
+    | none => exact same [] (by simp only [step, hg]) (fun _ => rfl) (by simp) (by simp) (v6_nil_of_noack _ _ (by simp))
     | some x =>
       obtain ⟨hx, _⟩ := Spec.C04.ownerGate_some hg
       cases k with
-      | creq => exact same [.lcpack sid x.mac] (by simp only [step, hg]) (fun _ => rfl) (by simp [toSent, plainSent]) (by simp [toSent, plainSent])
-      | cnak => exact same [.lcpreq sid x.mac] (by simp only [step, hg]) (fun _ => rfl) (by simp [toSent, plainSent]) (by simp [toSent, plainSent])
-      | echo => exact same [.lcperep sid x.mac] (by simp only [step, hg]) (fun _ => rfl) (by simp [toSent, plainSent]) (by simp [toSent, plainSent])
+      | creq => exact same [.lcpack sid x.mac] (by simp only [step, hg]) (fun _ => rfl) (by simp [toSent, plainSent]) (by simp [toSent, plainSent]) (v6_nil_of_noack _ _ (by simp [toSent, plainSent]))
+      | cnak => exact same [.lcpreq sid x.mac] (by simp only [step, hg]) (fun _ => rfl) (by simp [toSent, plainSent]) (by simp [toSent, plainSent]) (v6_nil_of_noack _ _ (by simp [toSent, plainSent]))
+      | echo => exact same [.lcperep sid x.mac] (by simp only [step, hg]) (fun _ => rfl) (by simp [toSent, plainSent]) (by simp [toSent, plainSent]) (v6_nil_of_noack _ _ (by simp [toSent, plainSent]))
       | term =>
         obtain ⟨f1, f2, f3, f4, f5, f6, f7, f8, f9⟩ := release_facts s hW.nda x.serial
         exact remove_core hW hR hx (outs := [.lcptack sid x.mac]) (by simp only [step, hg]) f1 f2 f3 f4 f5 f6 f7 f8 f9 (fun _ => rfl)
@@ -1008,22 +1048,26 @@ theorem step_ok {s : Srv} {mn : Mon} (hW : W s) (hR : Rel s mn) (i : In) : StepO
         exact hR.auth sid x hx he
   | ipcp m sid k =>
     cases hg : ownerGate s m sid with
-    | none => exact same [] (by simp only [step, hg]) (fun _ => rfl) (by simp) (by simp)
+    | none => exact same [] (by simp only [step, hg]) (fun _ => rfl) (by simp) (by simp) (v6_nil_of_noack _ _ (by simp))
     | some x =>
       obtain ⟨hx, _⟩ := Spec.C04.ownerGate_some hg
       by_cases hau : x.authed = true
       · cases k with
         | creqIp =>
-          refine same [if x.ip.isSome then .ipcpnak x.ip sid x.mac else .ipcpack sid x.mac]
-            (by simp only [step, hg, hau]; rfl) (fun _ => rfl) ?_ ?_
+          refine same [if x.ip.isSome then .ipcpnak x.ip sid x.mac else .ipcprej sid x.mac]
+            (by simp only [step, hg, hau]; rfl) (fun _ => rfl) ?_ ?_ ?_
           · cases hip : x.ip <;> simp [toSent, plainSent]
           · cases hip : x.ip <;> simp [toSent, plainSent] <;> exact ⟨x, hx, hau⟩
+          · apply v6_nil_of_noack
+            cases hip : x.ip <;> simp [toSent, plainSent]
         | creqDns =>
           exact same [.ipcpnak none sid x.mac] (by simp only [step, hg, hau]; rfl) (fun _ => rfl)
-            (by simp [toSent, plainSent]) (by simp [toSent, plainSent])
+            (by simp [toSent, plainSent]) (by simp [toSent, plainSent]) rfl
         | creqNone =>
-          refine same [.ipcpack sid x.mac] (by simp only [step, hg, hau]; rfl) (fun _ => rfl) (by simp [toSent, plainSent]) ?_
-          simp [toSent, plainSent]; exact ⟨x, hx, hau⟩
+          refine same [.ipcpack sid x.mac] (by simp only [step, hg, hau]; rfl) (fun _ => rfl) (by simp [toSent, plainSent]) ?_ ?_
+          · simp [toSent, plainSent]; exact ⟨x, hx, hau⟩
+          · -- an Ack of a request WITHOUT an IP-Address option: the clause is about `creqIp` only
+            rfl
         | cack =>
           have hnp : ∀ t ∈ ([] : List Out).filterMap toSent, t.pads = false ∧ t.ipcpAns = false := by simp
           refine update_core hW hR hx (s1 := s) (y := { x with state := .est }) (outs := [])
@@ -1034,10 +1078,10 @@ theorem step_ok {s : Srv} {mn : Mon} (hW : W s) (hR : Rel s mn) (i : In) : StepO
           rw [auth0_nopads mn _ (fun t ht => (hnp t ht).1)]
           exact hR.auth sid x hx he
       · have hau' : x.authed = false := by simpa using hau
-        exact same [] (by simp [step, hg, hau']) (fun _ => rfl) (by simp) (by simp)
+        exact same [] (by simp [step, hg, hau']) (fun _ => rfl) (by simp) (by simp) (v6_nil_of_noack _ _ (by simp))
   | pap m sid pw r =>
     cases hg : ownerGate s m sid with
-    | none => exact same [] (by simp only [step, hg]) (fun _ => rfl) (by simp) (by simp)
+    | none => exact same [] (by simp only [step, hg]) (fun _ => rfl) (by simp) (by simp) (v6_nil_of_noack _ _ (by simp))
     | some x =>
       obtain ⟨hx, hm⟩ := Spec.C04.ownerGate_some hg
       by_cases hok : papOk s pw r = true
